@@ -163,7 +163,7 @@ func buildCorpus(repo, work string, tier string, seed uint64, o *hxlib.Out) []*J
 		}
 		s := string(b)
 		if strings.Contains(s, "sha512") || strings.Contains(rel, "sha512") || strings.Contains(s, "ed25519") ||
-			strings.Contains(s, "@heavy") || strings.Contains(s, "crypto/rsa") {
+			strings.Contains(s, "@heavy") || strings.Contains(s, "crypto/rsa") || (quick && strings.Contains(rel, "/cts/")) {
 			o.Count("corpus_skipped_testsuite")
 			continue
 		}
@@ -175,16 +175,21 @@ func buildCorpus(repo, work string, tier string, seed uint64, o *hxlib.Out) []*J
 		tsJobs = append(tsJobs, &Job{Name: rel, Family: "testsuite", Src: s, Sizes: sizes})
 	}
 	if quick {
-		// every program that imports something + a seeded sample of the rest
+		// all of testsuite/lang (tiny, covers the language features), up to 10
+		// other programs that import packages, and a seeded sample of the rest
 		var keep, restJ []*Job
+		nimp := 0
 		for _, j := range tsJobs {
-			if strings.Contains(j.Src, "import") && len(keep) < 10 {
+			if strings.Contains(j.Name, "/lang/") {
 				keep = append(keep, j)
+			} else if strings.Contains(j.Src, "import") && nimp < 10 {
+				keep = append(keep, j)
+				nimp++
 			} else {
 				restJ = append(restJ, j)
 			}
 		}
-		for len(keep) < 16 && len(restJ) > 0 {
+		for n := 0; n < 6 && len(restJ) > 0; n++ {
 			i := rng.Intn(len(restJ))
 			keep = append(keep, restJ[i])
 			restJ = append(restJ[:i], restJ[i+1:]...)
